@@ -515,7 +515,28 @@ C03.manifest = {
             "witnesses: a KeepLast history with a replacement and a KeepFirst history with ignored duplicates in another "
             "order report the two shortest paths of a diamond in a DIFFERENT ORDER and, with first_only, DIFFERENT single "
             "paths (C03_paths_edge_store_only_nonvacuous); with a ZERO weight even the path SET depends on the insertion "
-            "order, so the positivity premise is necessary (C03_paths_zero_weight_depend_on_history).",
+            "order, so the positivity premise is necessary (C03_paths_zero_weight_depend_on_history). "
+            "ALSO THE OTHER ENTRY POINTS OF dijkstra.rs (Proofs/EntryStoreOnly.v; composition with C08: all_pairs / "
+            "multi_source are single_source per source, get_all_shortest_paths_involving is a filter of all_pairs): under "
+            "the same premises (multi_source: plus 'the listed sources are node names') all_pairs and multi_source return "
+            "Ok on both graphs for ANY thread count on either side, the two maps have the same source keys (the node names "
+            "/ the listed sources) and under every source key the inner maps are related exactly as the single-source "
+            "theorems relate them - distances for any first_only/with_paths (C03_all_pairs_distances_depend_on_edge_store_only, "
+            "C03_multi_source_distances_depend_on_edge_store_only), duplicate-free path lists with the same paths for "
+            "first_only=false and positive weights (C03_all_pairs_depends_on_edge_store_only, "
+            "C03_multi_source_depends_on_edge_store_only), one shortest path of the common edge-store graph each for "
+            "first_only=true (C03_*_first_path_depends_on_edge_store_only); the same for every arm of `match parallel` "
+            "(serial, rayon under any complete schedule with join's panic rule or the pessimistic rule, possibly different "
+            "on the two sides: C03_all_pairs_arm_depends_on_edge_store_only, C03_multi_source_arm_depends_on_edge_store_only; "
+            "the _sched functions of C07 are these at arm_of, C03_sched_functions_are_arms). "
+            "get_all_shortest_paths_involving(x) (positive weights) returns on both graphs the same collection of "
+            "(distance, path list) entries up to order and up to the order of each path list: a permutation of one list is "
+            "entrywise the other with equal distance and permuted duplicate-free paths, equal lengths, mutual inclusion, "
+            "and the all-pairs entry of a pair (s,t) is kept on one graph iff on the other "
+            "(C03_involving_depends_on_edge_store_only, C03_involving_arm_depends_on_edge_store_only). Evaluated witness "
+            "on the same two graphs, 1 thread vs 8 threads, reversed / shuffled schedules: the entry (1,5) lists its two "
+            "paths in a different order under all_pairs and multi_source, the involving(4) lists have three entries and are "
+            "NOT equal (C03_entry_points_edge_store_only_nonvacuous).",
     "note": "Axioms: none. Trusted: Coq kernel; harness + hook verif_snapshot. Premises of the consequence theorems are "
             "those of the quoted end-to-end theorems: in weighted mode no stored weight is NaN (the property's 'uniformly "
             "weighted'; a group mixing NaN and real weights has an order-dependent running minimum), non-negative for "
@@ -524,9 +545,12 @@ C03.manifest = {
             "order among equal distances, hence on the history: only the reported distances and the target's entry are "
             "functions of the edge store, and the theorem says exactly that. Of the reported PATHS the set (first_only=false, "
             "positive weights) is a function of the edge store, the ORDER of the list and the single path kept by first_only "
-            "are not (they follow the order of the adjacency rows), and the theorems say exactly that. Eigenvector "
-            "centrality (C18) and the "
-            "multi_source / all_pairs maps are not restated here (C08 proves the latter equal single_source per key). "
+            "are not (they follow the order of the adjacency rows), and the theorems say exactly that. The multi_source / "
+            "all_pairs / involving theorems carry the premises of C08's per-source theorems: listed sources must be node "
+            "names (multi_source); all_pairs' 'every stored edge carries a weight' follows from 'every stored weight is a "
+            "real'; no node-count threshold (any thread count, any arm). The entries of get_all_shortest_paths_involving "
+            "carry no (source, target) key in the API, so 'the same collection' is stated on (distance, path list) values. "
+            "Eigenvector centrality (C18) is not restated in the edge-store-only form. "
             "Defect F1 (KeepFirst/KeepLast kept the minimum instead of the stored weight) was repaired by a fix: commit; "
             "the model is the repaired code.",
     "technique": "Coq proof: data-structure invariant by induction over histories; the algorithms' end-to-end theorems "
